@@ -153,7 +153,7 @@ func permuteKeys(r *rand.Rand, c *cfg.Config) string {
 
 func checkC08(c *Ctx) error {
 	cfgN, runs, perms := c.Pick(48, 420), c.Pick(16, 60), c.Pick(4, 8)
-	c.Rule = fmt.Sprintf("%d configurations (half valid, half invalid with >=6 simultaneous defects per class; 6-8 entries in every mapping the tool ranges over: aliases incl. prefix-related names, functions, parameters, services, fields, files matched by several patterns) x %d fresh processes each, every run in its own working directory with relative paths, a perturbed environment and different previous content at the output path (none, longer, shorter), TMPDIR unset / missing / on another file system; every eighth valid configuration also with an output path that cannot be written (missing directory, path is a directory) (HOME/GOPATH/GOMODCACHE/GOFLAGS/LANG/TZ/TERM/NO_COLOR unset or garbage, unrelated APP_* variables, PATH with and without a go command, parent directory with and without .go files of the same package) — sha256 of the -o file and of stdout must be constant per configuration; plus %d key permutations of every mapping of each valid configuration — the -o file must not change. A canary program built with the same toolchain shows that map iteration order really varies between these processes. distinct = distinct configuration; non-trivial = every ranged mapping has >=6 entries", cfgN, runs, perms)
+	c.Rule = fmt.Sprintf("%d configurations (half valid, half invalid with >=6 simultaneous defects per class; 6-8 entries in every mapping the tool ranges over: aliases incl. prefix-related names, functions, parameters, services, fields, files matched by several patterns) x %d fresh processes each, every run in its own working directory with relative paths, a perturbed environment and different previous content at the output path (none, longer, shorter), TMPDIR unset / missing / on another file system; every eighth valid configuration also with an output path that cannot be written (missing directory, path is a directory) (HOME/GOPATH/GOMODCACHE/GOFLAGS/LANG/TZ/TERM/NO_COLOR unset or garbage, unrelated APP_* variables, PATH with and without a go command, parent directory with and without .go files of the same package) — sha256 of the -o file and of stdout must be constant per configuration; plus %d key permutations of every mapping of each valid configuration — the -o file must not change. Builds stamped with version, commit and dates in several forms are run under different time zones and locales: file and report must not change. A canary program built with the same toolchain shows that map iteration order really varies between these processes. distinct = distinct configuration; non-trivial = every ranged mapping has >=6 entries", cfgN, runs, perms)
 	c.Assumptions = []string{"the schedule explored is the runtime's per-range map randomisation: detection is probabilistic (miss probability per 6-entry map and 16 runs < 1e-9), silence on a correct tree is certain", "stdout is compared with relative -i/-o arguments, since the report echoes them"}
 	w := c.W
 	if _, err := NewLabOnlyMod(c); err != nil {
@@ -386,6 +386,56 @@ func checkC08(c *Ctx) error {
 		}
 		if gi < 2 {
 			c.Sample(map[string]any{"valid": g.valid, "patterns": g.pats, "first_file": g.files[0].Content, "distinct_outputs": len(g.outSha), "distinct_reports": len(g.repSha), "runs": runs})
+		}
+	}
+	// stamped builds: the build information is an input (it is printed into the file), the time zone and locale of the machine
+	// that RUNS the tool are not - whatever form the stamped date has
+	{
+		stamps := []string{
+			"-X main.version=1.2.3 -X main.date=2026-03-14T09:26:53 -X main.commit=0123456789abcdef0123456789abcdef01234567 -X main.isGitDirty=true -X main.builtBy=make4.3",
+			"-X main.version=v0.9.1 -X main.date=2026-03-14T09:26:53Z -X main.commit=0123456789abcdef0123456789abcdef01234567 -X main.isGitDirty=false -X main.builtBy=goreleaser",
+			"-X main.version=dev-main -X main.date=2026-03-14T23:59:59+02:00",
+			"-X main.date=unknown",
+		}
+		if !c.Thorough() {
+			stamps = stamps[:2]
+		}
+		zones := [][]string{{"TZ=UTC"}, {"TZ=Asia/Tokyo"}, {"TZ=America/Los_Angeles", "LANG=en_US.UTF-8"}, {"TZ=Pacific/Kiritimati", "LC_ALL=pl_PL.UTF-8"}, {"TZ=garbage"}, {}, {"TZ=", "LANG=C"}, {"TZ=:/etc/localtime"}}
+		for si, st := range stamps {
+			sb := filepath.Join(w.Dir, "bin", fmt.Sprintf("gontainer-stamped%d", si))
+			if err := w.BuildTool(sb, st, "", false); err != nil {
+				return fmt.Errorf("stamped build: %v", err)
+			}
+			g := groups[0]
+			var first string
+			for zi, z := range zones {
+				dir := w.TempDir("c08z")
+				for _, f := range g.files {
+					_ = work.WriteFile(filepath.Join(dir, f.Name), []byte(f.Content))
+				}
+				args := []string{"build"}
+				for _, p := range g.pats {
+					args = append(args, "-i", p)
+				}
+				args = append(args, "-o", "out.go")
+				env := append([]string{"PATH=" + w.EmptyBin, "HOME=" + dir}, z...)
+				res := work.Run(sb, dir, env, 120*time.Second, nil, args...)
+				b, _ := os.ReadFile(filepath.Join(dir, "out.go"))
+				obs := res.Stdout + "\n--exit " + fmt.Sprint(res.Exit) + "\n--file--\n" + string(b)
+				c.Add("stamped_build_runs", 1)
+				if zi == 0 {
+					first = obs
+					if res.Exit != 0 {
+						c.Violate("stamped-build-rejects-valid-config", "a stamped build rejects a valid configuration:\n"+res.Stdout, map[string]string{"ldflags.txt": st})
+						break
+					}
+					continue
+				}
+				if obs != first {
+					c.Violate("output-depends-on-time-zone-or-locale", fmt.Sprintf("build stamped %q: environment %v gives another report/file than %v\n%s", st, z, zones[0], firstDiff(first, obs)), map[string]string{"ldflags.txt": st})
+					break
+				}
+			}
 		}
 	}
 	// absolute arguments, different working directories: the same argv must give the same report and file whatever the cwd
